@@ -3703,6 +3703,80 @@ def spec_inline_text_tags(ctx, make_exe):
                      "continuation pieces carry the same annotations (plus the continuation mark inside <pre>): %s" % names(cont))
     return {"function": f.name, "paths": total}
 
+# ----------------------------------------------------------------------------
+# SPEC: a table keeps the rows of all its row groups, and drops no child that has content
+# ----------------------------------------------------------------------------
+
+def spec_table_children_kept(ctx, make_exe):
+    import summaries
+    orig = summaries.summarize
+    f = the(ctx.find(r"^table_to_render_tree::\{closure#0\}$"), "table_to_render_tree: the closure assembling the table")
+    total = 0
+    shapes = [["B"], ["B", "B"], ["B", "X"], ["X", "B"], ["B", "X", "B"], ["X"], []]
+    for shape in shapes:
+        exe = make_exe(inline=[r"RenderNode::new_styled$"], loop_bound=8)
+        st = State()
+        kids = []
+        empties = {}
+        for i, k in enumerate(shape):
+            if k == "B":
+                info = VAgg("RenderNodeInfo::TableBody", "TableBody", [VVec([VOpaque("RenderTableRow", "g%dr0" % i), VOpaque("RenderTableRow", "g%dr1" % i)])])
+            else:
+                info = VAgg("RenderNodeInfo::Container", "Container", [VVec([VOpaque("RenderNode", "x%d.content" % i)])])
+                empties[i] = exe.fresh("bool", "child%d.has_no_content" % i)
+            kids.append(_agg(ctx, "RenderNode", info=info))
+        env = VAgg("closure", None, [VOpaque("ComputedStyle", "computed")])
+        tables = []
+
+        def summ(exe_, st_, f_, bb_, callee, args, dest_ty):
+            c = callee.strip()
+            if re.search(r"as Extend<RenderTableRow>>::extend::<", c):
+                dst = args[0]
+                cur = dst
+                while isinstance(cur, VRef):
+                    cur = exe_.deref(st_, cur)
+                add = args[1]
+                if isinstance(cur, VVec) and isinstance(add, VVec):
+                    exe_.write_ref(st_, dst, [], VVec(list(cur.elems) + list(add.elems)), None)
+                    return [(st_, VUnit())]
+                return None
+            if re.search(r"^RenderTable::new$", c):
+                tables.append((st_.clone(), args[0]))
+                return [(st_, VAgg("RenderTableModel", None, [args[0]]))]
+            return orig(exe_, st_, f_, bb_, callee, args, dest_ty)
+        summaries.summarize = summ
+        try:
+            outs = exe.run(f.name, {1: env, 2: VRef("val", VOpaque("HtmlContext", "ctx")), 3: VVec(kids)}, st)
+        finally:
+            summaries.summarize = orig
+        total += len(outs)
+        if not outs:
+            raise Inconclusive("no path returned")
+        want_rows = []
+        for i, k in enumerate(shape):
+            if k == "B":
+                want_rows += ["g%dr0" % i, "g%dr1" % i]
+        for (s2, ret) in outs:
+            got_rows = None
+            if isinstance(ret, VAgg) and ret.variant == "Some":
+                node = ret.fields[0]
+                info = node.fields[node.names.index("info")] if isinstance(node, VAgg) and node.names else None
+                if isinstance(info, VAgg) and info.variant == "Table":
+                    t = info.fields[0]
+                    rows = t.fields[0] if isinstance(t, VAgg) and t.path == "RenderTableModel" else None
+                    if isinstance(rows, VVec):
+                        got_rows = [getattr(r, "name", "?") for r in rows.elems]
+            elif isinstance(ret, VAgg) and ret.variant == "None":
+                got_rows = []
+            if got_rows is None:
+                raise Inconclusive("table node not recovered")
+            post(exe, s2, z3.BoolVal(got_rows == want_rows), f.name, "table %s: the rows of every row group are kept, in order (got %s)" % ("".join(shape) or "-", got_rows))
+            for i, k in enumerate(shape):
+                if k == "X":
+                    # the child is not represented in the result at all
+                    post(exe, s2, empties[i].e, f.name, "table %s: a child that is not a row group is dropped only if it has no content" % "".join(shape))
+    return {"function": f.name, "paths": total}
+
 
 ALL = [
     Spec("table_col_width", ["C06", "C02", "C01"], spec_table_col_width,
@@ -3895,6 +3969,11 @@ ALL = [
          bounds="0-1 text filters; block-end flag, <pre> depth, whitespace mode and the text's whitespace-only-ness symbolic",
          assumptions=["WrappedBlock::add_text is observed (its behaviour is the subject of the wrap_* specs); start_block clears the block-end flag"],
          replay=lambda fd, vals, info: {"harness": "m_inline_tags", "values": [[0]]}),
+    Spec("table_children_kept", ["C03"], spec_table_children_kept,
+         functions=["table_to_render_tree::{closure#0}", "RenderNode::new_styled"],
+         bounds="0-3 children: row groups of two rows each and other nodes of arbitrary emptiness",
+         assumptions=["RenderTable::new is observed, not executed; Vec::extend appends"],
+         replay=lambda fd, vals, info: {"harness": ("m_table_caption" if "dropped only if it has no content" in fd.msg else "m_table_sections"), "values": [[0]]}),
     Spec("link_footnotes", ["C08"], spec_link_footnotes,
          functions=["TextRenderer::start_link", "TextRenderer::end_link"],
          bounds="0-2 links already recorded; footnote flag symbolic",
